@@ -24,9 +24,16 @@ def gen(rng):
     # (small: more facts, started from explicit tiny values, so that the probability of an example's evidence starts
     # many orders of magnitude below where it ends)
     lines = ["t(%s)::%s." % (rng.choice(["0.01", "0.001", "0.03"]) if small else "_", f) for f in facts]
+    # heads with a fixed probability next to the tunable ones (in a third of the disjunctions); with one tunable head
+    # only, the learned value is known not to be normalised (listed finding)
+    fixed = []
+    if heads and rng.random() < 0.35:
+        fixed = [("x%d" % i, rng.choice([0.1, 0.2, 0.3])) for i in range(rng.randint(1, 2))]
+        if rng.random() < 0.25:
+            heads = heads[:1]
     if heads:
-        lines.append("; ".join("t(_)::%s" % h for h in heads) + ".")
-    atoms = facts + heads
+        lines.append("; ".join(["%s::%s" % (p, x) for x, p in fixed] + ["t(_)::%s" % h for h in heads]) + ".")
+    atoms = facts + heads + [x for x, _ in fixed]
     rules = []
     derived = []
     for k in range(rng.randint(0, 2)):
@@ -38,20 +45,24 @@ def gen(rng):
     true_p = dict((f, rng.choice([0.5, 0.8, 0.9] if small else [0.2, 0.35, 0.5, 0.8])) for f in facts)
     if heads:
         ws = [rng.randint(1, 5) for _ in heads]
+        rest = 1.0 - sum(p for _, p in fixed)
         for h, w in zip(heads, ws):
-            true_p[h] = w / float(sum(ws))          # the reference AD always selects a head
+            true_p[h] = rest * w / float(sum(ws))          # the reference AD always selects a head
+        for x, p in fixed:
+            true_p[x] = p
     complete = rng.random() < 0.5
     examples = []
     for _ in range(30):
         world = dict((f, rng.random() < true_p[f]) for f in facts)
         if heads:
-            u, acc, chosen = rng.random(), 0.0, heads[-1]
-            for h in heads:
+            allh = [x for x, _ in fixed] + heads
+            u, acc, chosen = rng.random(), 0.0, allh[-1]
+            for h in allh:
                 acc += true_p[h]
                 if u < acc:
                     chosen = h
                     break
-            for h in heads:
+            for h in allh:
                 world[h] = h == chosen
         for d, body in derived:
             world[d] = all(world[b] != neg for b, neg in body)
@@ -60,7 +71,8 @@ def gen(rng):
         else:
             obs = [a for a in atoms + [d for d, _ in derived] if rng.random() < 0.6] or [atoms[0]]
         examples.append([(a, world[a]) for a in obs])
-    return dict(model="\n".join(lines + rules) + "\n", facts=facts, heads=heads, examples=examples, complete=complete)
+    return dict(model="\n".join(lines + rules) + "\n", facts=facts, heads=heads, examples=examples, complete=complete,
+                fixed=fixed)
 
 
 def check_one(seed):
@@ -100,12 +112,13 @@ def check_one(seed):
                     out["violations"].append(("parameter-out-of-range", "iteration %d: %s" % (it + 1, bad)))
                     break
                 if case["heads"]:
-                    s = sum(ws.get(h, 0.0) for h in case["heads"])
+                    s = sum(ws.get(h, 0.0) for h in case["heads"]) + sum(p for _, p in case.get("fixed", ()))
                     if s > 1 + 1e-9:
-                        out["violations"].append(("ad-sum-above-one", "iteration %d: the AD parameters %s sum to %.10f"
+                        single = ":single-tunable-head-with-fixed-heads" if case.get("fixed") and len(case["heads"]) == 1 else ""
+                        out["violations"].append(("ad-sum-above-one" + single, "iteration %d: the AD parameters %s sum to %.10f"
                                                   % (it + 1, [(h, ws.get(h)) for h in case["heads"]], s)))
                         break
-                if it == 0 and case["complete"]:
+                if it == 0 and case["complete"] and not case.get("fixed"):
                     n = float(len(case["examples"]))
                     freq = dict((a, sum(1 for ex in case["examples"] if dict(ex).get(a)) / n) for a in case["facts"] + case["heads"])
                     diff = [(a, ws.get(a), freq[a]) for a in freq if a in ws and abs(ws[a] - freq[a]) > 1e-9]
